@@ -336,6 +336,11 @@ func (d *tDecoder) decodeType(t *tType, b []byte, p unsafe.Pointer, maxdepth int
 				}
 			}
 			tmp = vp
+			if vt.T == tSTRUCT && !vt.IsPointer {
+				// the pooled slot still holds the previous entry (or message):
+				// fields absent from this entry must not inherit its values
+				v.SetZero()
+			}
 			if vt.IsPointer { // tmp = &sliceV[j]
 				if j != 0 { // next
 					sliceV = unsafe.Add(sliceV, vt.V.Size)
